@@ -112,6 +112,12 @@ Res(ms, nb, nc, tags) == [ms |-> ms, nb |-> nb, nc |-> nc, tags |-> tags]
 ResOk(nc, tags) == Res(<< >>, 0, nc, tags)
 ResBad(m, tags) == Res(<<m>>, 1, 1, tags)
 
+Check(e, o, tag, cond, got, exp) ==
+    IF cond THEN ResOk(1, {tag}) ELSE ResBad(Mis(e, o, tag, 0, 0, got, exp), {tag})
+
+\* the defining line of a "big" bit structure (kept in the seq field)
+BigLineOf(o) == o.seq[1]
+
 IsSkipI(x) == x = SKIP
 IsSkipV(x) == x = <<SKIP>>
 
@@ -480,6 +486,19 @@ Mut ==
     /\ IsEv("mut")
     /\ LET e == Ev
        IN  IF ~Live(e.o) THEN Advance(ResOk(0, {}), objs)
+           ELSE IF objs[e.o].fam = "BIG"
+           THEN \* only writes that leave the content as it is are generated for the big vectors: a bit of
+                \* the leading run set to the run's value, a word of it overwritten with itself; the
+                \* counters observed afterwards (metabig) must not move
+                LET o == objs[e.o]
+                    d == Rec[BigLineOf(o)]
+                    fill == IF Has(d, "fill") THEN d.fill ELSE 0
+                    same == \/ (e.m = "set" /\ e.a[1] >= 0 /\ e.a[1] < 1073741824 /\ e.a[2] = fill)
+                            \/ (e.m = "set_bits" /\ e.a[1] >= 0 /\ e.a[2] >= 0 /\ e.a[2] <= 64 /\ e.a[1] + e.a[2] < 1073741824
+                                /\ e.w = (IF fill = 1 THEN [q \in 1..e.a[2] |-> q - 1] ELSE << >>))
+                    tag == "BIG." \o o.kind \o ".mut." \o e.m
+                IN  IF ~same THEN ToolErr(e, "a mutation of a big vector that changes its content") /\ Advance(ResOk(0, {}), objs)
+                    ELSE Advance(Check(e, o, tag, e.out = 0, e.out, {0}), objs)
            ELSE LET o == objs[e.o]
                     B == SeqOf(o)
                     a == IF Has(e, "a") THEN e.a ELSE << >>
@@ -494,7 +513,7 @@ Mut ==
                           ELSE IF e.m = "extend_with_zeros" THEN MutExtendZeros(B, a[1])
                           ELSE IF e.m = "set" THEN MutSet(B, a[1], a[2])
                           ELSE IF e.m = "set_bits" THEN MutSetBits(B, a[1], a[2], e.w)
-                          ELSE IF e.m = "extend_bools" THEN B \o e.bits
+                          ELSE IF e.m \in {"extend_bools", "extend_bools_filter"} THEN B \o e.bits
                           ELSE IF e.m = "extend_positions" THEN MutExtendPositions(B, e.pos)
                           ELSE IF e.m = "qpush" THEN B \o <<a[1] % 4>>
                           ELSE IF e.m = "qextend" THEN B \o [q \in 1..Len(e.vals) |-> SymMod4(e.vals[q])]
@@ -598,9 +617,6 @@ Crash ==
 
 Abs(x) == IF x < 0 THEN -x ELSE x
 
-Check(e, o, tag, cond, got, exp) ==
-    IF cond THEN ResOk(1, {tag}) ELSE ResBad(Mis(e, o, tag, 0, 0, got, exp), {tag})
-
 \* retained and reported bytes (C14, C15, C16)
 SpaceEv ==
     /\ IsEv("space")
@@ -660,7 +676,6 @@ SpaceStdEv ==
                                   e.rep >= 0 /\ Abs(e.rep - actual) <= tol, e.rep, {actual, tol}), objs)
 
 \* bit structures beyond 2^32 positions (C06, C07, C08): base zeros + tail
-BigLineOf(o) == o.seq[1]
 BigVal == [L \in BigLines |->
              LET T == Flat(Rec[L].segs)
              IN  [T |-> T, P1 |-> Positions(T, 1), P0 |-> Positions(T, 0)]]
